@@ -720,18 +720,21 @@ impl IdlSqliteWriteTransaction {
 
     #[instrument(level = "debug", name = "idl_sqlite::commit", skip_all)]
     pub fn commit(mut self) -> Result<(), OperationError> {
+        #[cfg(feature = "verif-hooks")] crate::verif_hooks::fault::storage_point("commit")?;
         debug_assert!(self.conn.is_some());
 
         let mut dropping = None;
         std::mem::swap(&mut dropping, &mut self.conn);
 
         if let Some(conn) = dropping {
+            #[cfg(feature = "verif-hooks")] crate::verif_hooks::fault::storage_point("commit_exec")?;
             conn.execute("COMMIT TRANSACTION", [])
                 .map(|_| ())
                 .map_err(|e| {
                     admin_error!(?e, "CRITICAL: failed to commit sqlite txn");
                     OperationError::BackendEngine
                 })?;
+            #[cfg(feature = "verif-hooks")] crate::verif_hooks::fault::storage_point("commit_done")?;
 
             self.pool
                 .lock()
@@ -790,6 +793,7 @@ impl IdlSqliteWriteTransaction {
     where
         I: Iterator<Item = IdRawEntry>,
     {
+        #[cfg(feature = "verif-hooks")] crate::verif_hooks::fault::storage_point("write_identries_raw")?;
         let mut stmt = self
             .get_conn()?
             .prepare(&format!(
@@ -812,6 +816,7 @@ impl IdlSqliteWriteTransaction {
     }
 
     pub fn delete_identry(&self, id: u64) -> Result<(), OperationError> {
+        #[cfg(feature = "verif-hooks")] crate::verif_hooks::fault::storage_point("delete_identry")?;
         let mut stmt = self
             .get_conn()?
             .prepare(&format!(
@@ -843,6 +848,7 @@ impl IdlSqliteWriteTransaction {
         idx_key: &str,
         idl: &IDLBitRange,
     ) -> Result<(), OperationError> {
+        #[cfg(feature = "verif-hooks")] crate::verif_hooks::fault::storage_point("write_idl")?;
         if idl.is_empty() {
             // delete it
             // Delete this idx_key from the table.
@@ -884,6 +890,7 @@ impl IdlSqliteWriteTransaction {
     }
 
     pub fn create_name2uuid(&self) -> Result<(), OperationError> {
+        #[cfg(feature = "verif-hooks")] crate::verif_hooks::fault::storage_point("create_name2uuid")?;
         self.get_conn()?
             .execute(
                 &format!("CREATE TABLE IF NOT EXISTS {}.idx_name2uuid (name TEXT PRIMARY KEY, uuid TEXT)", self.get_db_name()),
@@ -894,6 +901,7 @@ impl IdlSqliteWriteTransaction {
     }
 
     pub fn write_name2uuid_add(&self, name: &str, uuid: Uuid) -> Result<(), OperationError> {
+        #[cfg(feature = "verif-hooks")] crate::verif_hooks::fault::storage_point("write_name2uuid_add")?;
         let uuids = uuid.as_hyphenated().to_string();
 
         self.get_conn()?
@@ -912,6 +920,7 @@ impl IdlSqliteWriteTransaction {
     }
 
     pub fn write_name2uuid_rem(&self, name: &str) -> Result<(), OperationError> {
+        #[cfg(feature = "verif-hooks")] crate::verif_hooks::fault::storage_point("write_name2uuid_rem")?;
         self.get_conn()?
             .prepare(&format!(
                 "DELETE FROM {}.idx_name2uuid WHERE name = :name",
@@ -923,6 +932,7 @@ impl IdlSqliteWriteTransaction {
     }
 
     pub fn create_externalid2uuid(&self) -> Result<(), OperationError> {
+        #[cfg(feature = "verif-hooks")] crate::verif_hooks::fault::storage_point("create_externalid2uuid")?;
         self.get_conn()?
             .execute(
                 &format!("CREATE TABLE IF NOT EXISTS {}.idx_externalid2uuid (eid TEXT PRIMARY KEY, uuid TEXT)", self.get_db_name()),
@@ -933,6 +943,7 @@ impl IdlSqliteWriteTransaction {
     }
 
     pub fn write_externalid2uuid_add(&self, name: &str, uuid: Uuid) -> Result<(), OperationError> {
+        #[cfg(feature = "verif-hooks")] crate::verif_hooks::fault::storage_point("write_externalid2uuid_add")?;
         let uuids = uuid.as_hyphenated().to_string();
 
         self.get_conn()?
@@ -951,6 +962,7 @@ impl IdlSqliteWriteTransaction {
     }
 
     pub fn write_externalid2uuid_rem(&self, name: &str) -> Result<(), OperationError> {
+        #[cfg(feature = "verif-hooks")] crate::verif_hooks::fault::storage_point("write_externalid2uuid_rem")?;
         self.get_conn()?
             .prepare(&format!(
                 "DELETE FROM {}.idx_externalid2uuid WHERE eid = :eid",
@@ -962,6 +974,7 @@ impl IdlSqliteWriteTransaction {
     }
 
     pub fn create_uuid2spn(&self) -> Result<(), OperationError> {
+        #[cfg(feature = "verif-hooks")] crate::verif_hooks::fault::storage_point("create_uuid2spn")?;
         self.get_conn()?
             .execute(
                 &format!(
@@ -975,6 +988,7 @@ impl IdlSqliteWriteTransaction {
     }
 
     pub fn write_uuid2spn(&self, uuid: Uuid, k: Option<&Value>) -> Result<(), OperationError> {
+        #[cfg(feature = "verif-hooks")] crate::verif_hooks::fault::storage_point("write_uuid2spn")?;
         let uuids = uuid.as_hyphenated().to_string();
         match k {
             Some(k) => {
@@ -1007,6 +1021,7 @@ impl IdlSqliteWriteTransaction {
     }
 
     pub fn create_uuid2rdn(&self) -> Result<(), OperationError> {
+        #[cfg(feature = "verif-hooks")] crate::verif_hooks::fault::storage_point("create_uuid2rdn")?;
         self.get_conn()?
             .execute(
                 &format!(
@@ -1020,6 +1035,7 @@ impl IdlSqliteWriteTransaction {
     }
 
     pub fn write_uuid2rdn(&self, uuid: Uuid, k: Option<&String>) -> Result<(), OperationError> {
+        #[cfg(feature = "verif-hooks")] crate::verif_hooks::fault::storage_point("write_uuid2rdn")?;
         let uuids = uuid.as_hyphenated().to_string();
         match k {
             Some(k) => self
@@ -1044,6 +1060,7 @@ impl IdlSqliteWriteTransaction {
     }
 
     pub(crate) fn create_keyhandles(&self) -> Result<(), OperationError> {
+        #[cfg(feature = "verif-hooks")] crate::verif_hooks::fault::storage_point("create_keyhandles")?;
         self.get_conn()?
             .execute(
                 &format!(
@@ -1057,6 +1074,7 @@ impl IdlSqliteWriteTransaction {
     }
 
     pub(crate) fn create_db_ruv(&self) -> Result<(), OperationError> {
+        #[cfg(feature = "verif-hooks")] crate::verif_hooks::fault::storage_point("create_db_ruv")?;
         self.get_conn()?
             .execute(
                 &format!(
@@ -1091,6 +1109,7 @@ impl IdlSqliteWriteTransaction {
         I: Iterator<Item = Cid>,
         J: Iterator<Item = Cid>,
     {
+        #[cfg(feature = "verif-hooks")] crate::verif_hooks::fault::storage_point("write_db_ruv")?;
         let mut stmt = self
             .get_conn()?
             .prepare(&format!(
@@ -1140,6 +1159,7 @@ impl IdlSqliteWriteTransaction {
 
     #[instrument(level = "debug", skip(self))]
     pub fn create_idx(&self, attr: &Attribute, itype: IndexType) -> Result<(), OperationError> {
+        #[cfg(feature = "verif-hooks")] crate::verif_hooks::fault::storage_point("create_idx")?;
         // Is there a better way than formatting this? I can't seem
         // to template into the str.
         //
@@ -1163,6 +1183,7 @@ impl IdlSqliteWriteTransaction {
     /// specific situations.
     #[instrument(level = "trace", skip_all)]
     pub fn danger_purge_idxs(&self) -> Result<(), OperationError> {
+        #[cfg(feature = "verif-hooks")] crate::verif_hooks::fault::storage_point("danger_purge_idxs")?;
         let idx_table_list = self.list_idxs()?;
         trace!(tables = ?idx_table_list);
 
@@ -1179,6 +1200,7 @@ impl IdlSqliteWriteTransaction {
         &self,
         slopes: &HashMap<IdxKey, IdxSlope>,
     ) -> Result<(), OperationError> {
+        #[cfg(feature = "verif-hooks")] crate::verif_hooks::fault::storage_point("store_idx_slope_analysis")?;
         self.get_conn()?
             .execute(
                 &format!(
@@ -1254,6 +1276,7 @@ impl IdlSqliteWriteTransaction {
     }
 
     pub fn quarantine_entry(&self, id: u64) -> Result<(), OperationError> {
+        #[cfg(feature = "verif-hooks")] crate::verif_hooks::fault::storage_point("quarantine_entry")?;
         let iid = i64::try_from(id).map_err(|_| OperationError::InvalidEntryId)?;
 
         let id_sqlite_entry = self
@@ -1291,6 +1314,7 @@ impl IdlSqliteWriteTransaction {
     }
 
     pub fn restore_quarantined(&self, id: u64) -> Result<(), OperationError> {
+        #[cfg(feature = "verif-hooks")] crate::verif_hooks::fault::storage_point("restore_quarantined")?;
         let iid = i64::try_from(id).map_err(|_| OperationError::InvalidEntryId)?;
 
         let id_sqlite_entry = self
@@ -1333,6 +1357,7 @@ impl IdlSqliteWriteTransaction {
     /// specific situations.
     #[instrument(level = "trace", skip_all)]
     pub fn danger_purge_id2entry(&self) -> Result<(), OperationError> {
+        #[cfg(feature = "verif-hooks")] crate::verif_hooks::fault::storage_point("danger_purge_id2entry")?;
         self.get_conn()?
             .execute(&format!("DELETE FROM {}.id2entry", self.get_db_name()), [])
             .map(|_| ())
@@ -1340,6 +1365,7 @@ impl IdlSqliteWriteTransaction {
     }
 
     pub fn write_db_s_uuid(&self, nsid: Uuid) -> Result<(), OperationError> {
+        #[cfg(feature = "verif-hooks")] crate::verif_hooks::fault::storage_point("write_db_s_uuid")?;
         let data = serde_json::to_vec(&nsid).map_err(|e| {
             admin_error!(immediate = true, ?e, "CRITICAL: Serde JSON Error");
             eprintln!("CRITICAL: Serde JSON Error -> {e:?}");
@@ -1370,6 +1396,7 @@ impl IdlSqliteWriteTransaction {
     }
 
     pub fn write_db_d_uuid(&self, nsid: Uuid) -> Result<(), OperationError> {
+        #[cfg(feature = "verif-hooks")] crate::verif_hooks::fault::storage_point("write_db_d_uuid")?;
         let data = serde_json::to_vec(&nsid).map_err(|e| {
             admin_error!(
                 immediate = true,
@@ -1404,6 +1431,7 @@ impl IdlSqliteWriteTransaction {
     }
 
     pub fn set_db_ts_max(&self, ts: Duration) -> Result<(), OperationError> {
+        #[cfg(feature = "verif-hooks")] crate::verif_hooks::fault::storage_point("set_db_ts_max")?;
         let data = serde_json::to_vec(&ts).map_err(|e| {
             admin_error!(
                 immediate = true,
@@ -1457,6 +1485,7 @@ impl IdlSqliteWriteTransaction {
     }
 
     fn set_db_version_key(&self, key: &str, v: i64) -> Result<(), OperationError> {
+        #[cfg(feature = "verif-hooks")] crate::verif_hooks::fault::storage_point("set_db_version_key")?;
         self.get_conn()?
             .execute(
                 &format!(
